@@ -1,14 +1,16 @@
 #!/usr/bin/env python3
-"""seedcheck.py [name-substring]  — regression for the machinery itself: apply every kept seeded change
+"""seedcheck.py [name-substring] [-jN]  — regression for the machinery itself: apply every kept seeded change
 (/verif/seeded/*/patch.diff) to a scratch copy of /repo and require that the check of the property it breaks exits 1
-with a VIOLATION line.  Not registered in MANIFEST (it tests the checks, not the repository)."""
+with a VIOLATION line.  Not registered in MANIFEST (it tests the checks, not the repository).  N seeds are run at a time (default 4)."""
 import glob, json, os, shutil, subprocess, sys, tempfile
-sel = sys.argv[1] if len(sys.argv) > 1 else ''
-bad = 0
-for d in sorted(glob.glob('/verif/seeded/*/')):
+from concurrent.futures import ThreadPoolExecutor
+args = [a for a in sys.argv[1:] if not a.startswith('-j')]
+jobs = ([int(a[2:]) for a in sys.argv[1:] if a.startswith('-j') and a[2:].isdigit()] or [4])[0]
+sel = args[0] if args else ''
+
+
+def one(d):
     name = os.path.basename(d.rstrip('/'))
-    if sel not in name:
-        continue
     meta = json.load(open(d + 'meta.json'))
     pid = meta['property']
     s = tempfile.mkdtemp(prefix='verif-seedcheck-')
@@ -16,14 +18,21 @@ for d in sorted(glob.glob('/verif/seeded/*/')):
         subprocess.run(['rsync', '-a', '--exclude', 'target', '--exclude', '.git', '/repo/', s + '/'], check=True)
         r = subprocess.run(['patch', '-p1', '-s', '-i', d + 'patch.diff'], cwd=s, capture_output=True, text=True)
         if r.returncode != 0:
-            print('%-45s STALE (patch no longer applies)' % name)
-            continue
+            return name, None, '%-45s STALE (patch no longer applies)' % name
         env = dict(os.environ, VERIF_REPO=s)
         r = subprocess.run(['/verif/check', pid], env=env, capture_output=True, text=True)
         v = [l for l in r.stdout.splitlines() if l.startswith('VIOLATION')]
-        ok = r.returncode == 1 and v
-        print('%-45s %s  (%s: exit %d, %d VIOLATION lines)' % (name, 'CAUGHT' if ok else 'MISSED', pid, r.returncode, len(v)))
-        bad += 0 if ok else 1
+        ok = r.returncode == 1 and bool(v)
+        return name, ok, '%-45s %s  (%s: exit %d, %d VIOLATION lines)' % (name, 'CAUGHT' if ok else 'MISSED', pid, r.returncode, len(v))
     finally:
         shutil.rmtree(s, ignore_errors=True)
+
+
+dirs = [d for d in sorted(glob.glob('/verif/seeded/*/')) if sel in os.path.basename(d.rstrip('/'))]
+bad = 0
+with ThreadPoolExecutor(max_workers=jobs) as ex:
+    for name, ok, line in ex.map(one, dirs):
+        print(line, flush=True)
+        if ok is False:
+            bad += 1
 sys.exit(1 if bad else 0)
